@@ -7,9 +7,12 @@
                        t_protos, t_routes
      sget t (l, r)     the session of the pair (local l, remote r)
      seg               a segment: s_src, s_dst, s_flags (FIN 1, SYN 2, RST 4, PSH 8, ACK 16), s_seq, s_ack, s_tlen
-     tcp_listen / tcp_open / tcp_demux collide / arrive collide   Tcp::listen, Tcp::open, Tcp::demux, and
-                       Ipv4::demux followed by Tcp::demux; each returns (result, state after).
-                       collide = "the destination endpoint and (0.0.0.0, port) live in the same DashMap shard"
+     tcp_listen / tcp_open / tcp_demux / arrive   Tcp::listen, Tcp::open, Tcp::demux, and Ipv4::demux followed
+                       by Tcp::demux; each returns (result, state after).  tcp_demux = tcp_demux_gen closed_reply
+                       false; tcp_demux_gen cr collide is the same decision with another closed-port reply and
+                       with the lock collision of the code before b7a73ede (collide = "the destination endpoint
+                       and (0.0.0.0, port) live in the same DashMap shard"); tcp_demux_orig collide =
+                       tcp_demux_gen closed_reply_orig collide is the code before both repairs
      tdec              the decision of demux: DSession up | DClosed reply | DListenReply r | DListenCreate up |
                        DListenIgnore | DMissingProto | DDeadlock | DIpDrop | DIpOther
      trun s ops        the state after any history of listens, opens and arrivals
@@ -18,82 +21,86 @@
    Claim: proof of the decision logic for ALL tables, segments and histories of the model + validation of
    the running stack's traces.  What a session does with a segment (the TCB) is property C01/C03a/b.
    Observations about the code as it is (theorems marked "as coded"): Tcp::listen overwrites silently;
-   sessions are never removed; the closed-port reset ignores SYN/FIN in its ACK; the wildcard lookup can
-   block the thread on its own lock. *)
+   sessions are never removed.  The two `_orig_refuted` theorems record what the code did before the repairs
+   b7a73ede and ba8dc528 (found by this kit). *)
 From Coq Require Import ZArith List.
 From Elvis Require Import Model.Base Model.Demux Model.TcpDemux Proofs.DemuxFacts Proofs.TcpDemuxFacts.
 Import ListNotations.
 Local Open Scope Z_scope.
 
 (* a segment for an existing connection is handed to its session; no table changes, so no second session *)
-Theorem C03c_existing_session : forall c s sg up,
-  sget (t_sess s) (s_dst sg, s_src sg) = Some up -> tcp_demux c s sg = (DSession up, s).
-Proof. exact demux_existing. Qed.
+Theorem C03c_existing_session : forall s sg up,
+  sget (t_sess s) (s_dst sg, s_src sg) = Some up -> tcp_demux s sg = (DSession up, s).
+Proof. exact (demux_existing closed_reply false). Qed.
 Print Assumptions C03c_existing_session.
 
 (* sessions are unique per endpoint pair, in every state any history of listens, opens and arrivals
-   (any segments, any shard layout) leads to *)
+   (any segments) leads to *)
 Theorem C03c_sessions_unique : forall ops s, wf_sess s -> wf_sess (trun s ops).
 Proof. exact trun_wf. Qed.
 Print Assumptions C03c_sessions_unique.
 
 (* the only effect Tcp::demux can have on the tables: one session for (local = destination, remote =
    source) is added - only if none existed and the segment is a SYN without RST and ACK *)
-Theorem C03c_demux_effect : forall c s sg,
-  snd (tcp_demux c s sg) = s \/
+Theorem C03c_demux_effect : forall s sg,
+  snd (tcp_demux s sg) = s \/
   (exists up, sget (t_sess s) (s_dst sg, s_src sg) = None /\
-     fst (tcp_demux c s sg) = DListenCreate up /\
-     snd (tcp_demux c s sg) = set_sess s (((s_dst sg, s_src sg), up) :: t_sess s) /\
+     fst (tcp_demux s sg) = DListenCreate up /\
+     snd (tcp_demux s sg) = set_sess s (((s_dst sg, s_src sg), up) :: t_sess s) /\
      f_rst sg = false /\ f_ack sg = false /\ f_syn sg = true).
-Proof. exact demux_effect. Qed.
+Proof. exact (demux_effect closed_reply false). Qed.
 Print Assumptions C03c_demux_effect.
 
 (* a SYN to a bound port creates exactly one session, keyed by (destination, source), for the application
    of the exact binding or - absent one - of the 0.0.0.0 binding ... *)
-Theorem C03c_syn_creates_one : forall c s sg up,
+Theorem C03c_syn_creates_one : forall s sg up,
   sget (t_sess s) (s_dst sg, s_src sg) = None ->
   (tget (t_listen s) (s_dst sg) = Some up \/
-   (tget (t_listen s) (s_dst sg) = None /\ c = false /\ tget (t_listen s) (ANY, snd (s_dst sg)) = Some up)) ->
+   (tget (t_listen s) (s_dst sg) = None /\ tget (t_listen s) (ANY, snd (s_dst sg)) = Some up)) ->
   f_rst sg = false -> f_ack sg = false -> f_syn sg = true -> zmem up (t_protos s) = true ->
-  tcp_demux c s sg = (DListenCreate up, set_sess s (((s_dst sg, s_src sg), up) :: t_sess s)).
-Proof. exact syn_creates_one. Qed.
+  tcp_demux s sg = (DListenCreate up, set_sess s (((s_dst sg, s_src sg), up) :: t_sess s)).
+Proof.
+  exact (fun s sg up G B => syn_creates_one closed_reply false s sg up G
+           (match B with or_introl b => or_introl b | or_intror (conj b1 b2) => or_intror (conj b1 (conj eq_refl b2)) end)).
+Qed.
 Print Assumptions C03c_syn_creates_one.
 
 (* ... and every later segment of that pair goes to it *)
-Theorem C03c_later_segments : forall c s sg up sg',
+Theorem C03c_later_segments : forall s sg up sg',
   s_dst sg' = s_dst sg -> s_src sg' = s_src sg ->
-  tcp_demux c (set_sess s (((s_dst sg, s_src sg), up) :: t_sess s)) sg' =
+  tcp_demux (set_sess s (((s_dst sg, s_src sg), up) :: t_sess s)) sg' =
   (DSession up, set_sess s (((s_dst sg, s_src sg), up) :: t_sess s)).
-Proof. exact later_segments. Qed.
+Proof. exact (later_segments closed_reply false). Qed.
 Print Assumptions C03c_later_segments.
 
-(* an exact binding wins over the wildcard (whatever the wildcard entry and the shard layout);
-   the wildcard binding is used when there is no exact one *)
+(* an exact binding wins over the wildcard (whatever the wildcard entry is); the wildcard binding is used
+   when there is no exact one *)
 Theorem C03c_exact_wins : forall s sg up,
   sget (t_sess s) (s_dst sg, s_src sg) = None ->
-  (tget (t_listen s) (s_dst sg) = Some up -> forall c, tcp_demux c s sg = listen_branch s sg up) /\
+  (tget (t_listen s) (s_dst sg) = Some up -> tcp_demux s sg = listen_branch s sg up) /\
   (tget (t_listen s) (s_dst sg) = None -> tget (t_listen s) (ANY, snd (s_dst sg)) = Some up ->
-   tcp_demux false s sg = listen_branch s sg up).
-Proof. exact (fun s sg up G => conj (fun B c => exact_wins c s sg up G B) (wildcard_used s sg up G)). Qed.
+   tcp_demux s sg = listen_branch s sg up).
+Proof. exact (fun s sg up G => conj (exact_wins closed_reply false s sg up G) (wildcard_used closed_reply s sg up G)). Qed.
 Print Assumptions C03c_exact_wins.
 
-(* no binding: no session, tables unchanged, at most one reply: the text-free reset of segment_arrives_closed
-   with the endpoints swapped (none for a reset) *)
+(* no binding: no session, tables unchanged, at most one reply: the text-free reset of RFC 9293 3.10.7.1 with
+   the endpoints swapped - none for a reset, <SEQ=SEG.ACK><CTL=RST> for an ACK segment, otherwise
+   <SEQ=0><ACK=SEG.SEQ+SEG.LEN><CTL=RST,ACK> with SEG.LEN = text + SYN + FIN (C03c_closed_reply_rfc, full) *)
 Theorem C03c_no_binding : forall s sg,
   sget (t_sess s) (s_dst sg, s_src sg) = None -> tget (t_listen s) (s_dst sg) = None ->
   tget (t_listen s) (ANY, snd (s_dst sg)) = None ->
-  tcp_demux false s sg = (DClosed (closed_reply sg), s) /\
+  tcp_demux s sg = (DClosed (closed_reply sg), s) /\
   (f_rst sg = true -> closed_reply sg = None) /\
   (forall r, closed_reply sg = Some r ->
      f_rst sg = false /\ s_src r = s_dst sg /\ s_dst r = s_src sg /\ s_tlen r = 0 /\ f_rst r = true /\
      (f_ack sg = true -> s_flags r = FL_RST /\ s_seq r = s_ack sg) /\
-     (f_ack sg = false -> s_flags r = FL_RST_ACK /\ s_seq r = 0 /\ s_ack r = wrap32 (s_seq sg + s_tlen sg))).
-Proof. exact (fun s sg G B1 B2 => conj (no_binding s sg G B1 B2) (conj (closed_reply_rst sg) (closed_reply_shape sg))). Qed.
+     (f_ack sg = false -> s_flags r = FL_RST_ACK /\ s_seq r = 0 /\ s_ack r = wrap32 (s_seq sg + seg_len sg))).
+Proof. exact (fun s sg G B1 B2 => conj (no_binding closed_reply s sg G B1 B2) (conj (closed_reply_rst sg) (closed_reply_shape sg))). Qed.
 Print Assumptions C03c_no_binding.
 
 (* RST segments and ACK segments never create a session, bound port or not: nothing changes *)
-Theorem C03c_rst_ack_never_create : forall c s sg,
-  f_rst sg = true \/ f_ack sg = true -> snd (arrive c s sg) = s /\ snd (tcp_demux c s sg) = s.
+Theorem C03c_rst_ack_never_create : forall s sg,
+  f_rst sg = true \/ f_ack sg = true -> snd (arrive s sg) = s /\ snd (tcp_demux s sg) = s.
 Proof. exact rst_ack_never_create. Qed.
 Print Assumptions C03c_rst_ack_never_create.
 
@@ -110,8 +117,11 @@ Theorem C03c_sessions_never_removed : forall ops s p up,
   sget (t_sess s) p = Some up ->
   sget (t_sess (trun s ops)) p = Some up /\
   (forall up', tcp_open (trun s ops) up' p = (1, trun s ops)) /\
-  (forall c sg, (s_dst sg, s_src sg) = p -> tcp_demux c (trun s ops) sg = (DSession up, trun s ops)).
-Proof. exact (fun ops s p up H => conj (trun_keeps ops s p up H) (no_reuse ops s p up H)). Qed.
+  (forall sg, (s_dst sg, s_src sg) = p -> tcp_demux (trun s ops) sg = (DSession up, trun s ops)).
+Proof.
+  exact (fun ops s p up H => conj (trun_keeps ops s p up H)
+           (conj (proj1 (no_reuse ops s p up H)) (proj2 (no_reuse ops s p up H) closed_reply false))).
+Qed.
 Print Assumptions C03c_sessions_never_removed.
 
 (* as coded: Tcp::listen never refuses; it replaces the binding of the endpoint, leaves the others alone,
@@ -127,41 +137,49 @@ Proof.
 Qed.
 Print Assumptions C03c_listen_overwrites.
 
-(* as coded, REFUTES "RST per 3.10.7.1" for SYN / FIN segments: the reset's ACK is SEG.SEQ + text length;
-   RFC 9293 prescribes SEG.SEQ + SEG.LEN with SYN and FIN counted.  The two agree exactly when the segment
-   carries neither. *)
-Theorem C03c_closed_reply_rfc_partial : forall sg,
-  f_syn sg = false -> f_fin sg = false -> closed_reply sg = rfc_closed_reply sg.
-Proof. exact closed_reply_rfc. Qed.
-Print Assumptions C03c_closed_reply_rfc_partial.
+(* the closed-port reply is the one RFC 9293 3.10.7.1 prescribes, for every segment (full) *)
+Theorem C03c_closed_reply_rfc : forall sg,
+  (f_rst sg = true -> closed_reply sg = None) /\
+  (f_rst sg = false -> f_ack sg = true ->
+     closed_reply sg = Some (mkSeg (s_dst sg) (s_src sg) FL_RST (s_ack sg) 0 0)) /\
+  (f_rst sg = false -> f_ack sg = false ->
+     closed_reply sg = Some (mkSeg (s_dst sg) (s_src sg) FL_RST_ACK 0
+                               (wrap32 (s_seq sg + (s_tlen sg + (if f_syn sg then 1 else 0) + (if f_fin sg then 1 else 0)))) 0)).
+Proof. exact closed_reply_spec. Qed.
+Print Assumptions C03c_closed_reply_rfc.
 
-Theorem C03c_closed_reply_syn_refuted :
-  let sg := mkSeg (167772161, 4000) (167772162, 81) 2 100 0 0 in
-  f_syn sg = true /\
-  closed_reply sg = Some (mkSeg (167772162, 81) (167772161, 4000) FL_RST_ACK 0 100 0) /\
-  rfc_closed_reply sg = Some (mkSeg (167772162, 81) (167772161, 4000) FL_RST_ACK 0 101 0).
-Proof. exact closed_reply_syn_deviates. Qed.
-Print Assumptions C03c_closed_reply_syn_refuted.
+(* before ba8dc528 the reset acknowledged SEG.SEQ + text length: right exactly for segments without SYN and
+   FIN, wrong for a bare SYN (ACK 100 instead of 101: an active opener drops such a reset, RFC 9293 3.10.7.3) *)
+Theorem C03c_closed_reply_orig_refuted :
+  (forall sg, f_syn sg = false -> f_fin sg = false -> closed_reply_orig sg = closed_reply sg) /\
+  (let sg := mkSeg (167772161, 4000) (167772162, 81) 2 100 0 0 in
+   f_syn sg = true /\
+   closed_reply_orig sg = Some (mkSeg (167772162, 81) (167772161, 4000) FL_RST_ACK 0 100 0) /\
+   closed_reply sg = Some (mkSeg (167772162, 81) (167772161, 4000) FL_RST_ACK 0 101 0)).
+Proof. exact (conj closed_reply_orig_agrees closed_reply_syn_deviates). Qed.
+Print Assumptions C03c_closed_reply_orig_refuted.
 
-(* as coded, REFUTES "no binding -> at most one RST reply, nothing else": without a session and without an
-   exact binding, when the destination endpoint and (0.0.0.0, port) share a shard, Tcp::demux blocks on its
-   own lock.  Machine-independent instance: a segment addressed to 0.0.0.0:81 on a machine that listens on
-   0.0.0.0:80. *)
-Theorem C03c_lookup_deadlock_refuted :
+(* the code as it is never blocks in the lookup.  Before b7a73ede it did: without a session and without an exact
+   binding, when the destination endpoint and (0.0.0.0, port) shared a shard, Tcp::demux waited for its own
+   lock - e.g. (machine independent) for a segment addressed to 0.0.0.0:81 on a machine listening on 0.0.0.0:80,
+   which now meets a closed port *)
+Theorem C03c_lookup_deadlock_orig_refuted :
+  (forall s sg, fst (tcp_demux s sg) <> DDeadlock /\ fst (arrive s sg) <> DDeadlock) /\
   (forall s sg, sget (t_sess s) (s_dst sg, s_src sg) = None -> tget (t_listen s) (s_dst sg) = None ->
-     tcp_demux true s sg = (DDeadlock, s)) /\
-  arrive true ex_t1 (mkSeg (167772417, 4000) (ANY, 81) 2 7 0 0) = (DDeadlock, ex_t1).
-Proof. exact (conj lookup_deadlock deadlock_example). Qed.
-Print Assumptions C03c_lookup_deadlock_refuted.
+     tcp_demux_orig true s sg = (DDeadlock, s)) /\
+  (tcp_demux_orig true ex_t1 (mkSeg (167772417, 4000) (ANY, 81) 2 7 0 0) = (DDeadlock, ex_t1) /\
+   arrive ex_t1 (mkSeg (167772417, 4000) (ANY, 81) 2 7 0 0) =
+     (DClosed (Some (mkSeg (ANY, 81) (167772417, 4000) 20 0 8 0)), ex_t1)).
+Proof. exact (conj demux_no_deadlock (conj lookup_deadlock deadlock_example)). Qed.
+Print Assumptions C03c_lookup_deadlock_orig_refuted.
 
 (* soundness of the validator: an accepted trace is a chain of accepted steps from the empty tables; the
-   machines' session tables stay unique; it hung exactly if the model deadlocks; otherwise every reply
-   Tcp::demux handed down and every injected segment was seen on the link *)
-Theorem C03c_validate_sound : forall script ms tr hung,
-  validate script ms tr hung = 0 -> Forall wf_sess ms ->
-  exists st', chain script (mkV ms [] [] false) tr st' /\
-    v_hung st' = hung /\ Forall wf_sess (v_ms st') /\
-    (hung = false -> v_owed st' = [] /\ v_inj st' = []).
+   machines' session tables stay unique; every reply Tcp::demux handed down and every injected segment was
+   seen on the link *)
+Theorem C03c_validate_sound : forall script ms tr,
+  validate script ms tr = 0 -> Forall wf_sess ms ->
+  exists st', chain script (mkV ms [] []) tr st' /\
+    Forall wf_sess (v_ms st') /\ v_owed st' = [] /\ v_inj st' = [].
 Proof. exact validate_sound. Qed.
 Print Assumptions C03c_validate_sound.
 
@@ -176,15 +194,13 @@ Proof. exact vstep_frame_justified. Qed.
 Print Assumptions C03c_step_frame.
 
 (* An arrival changes the machine as Ipv4::demux ; Tcp::demux prescribe, and the reply they hand down - at
-   most one - becomes owed to the interface the segment came from; a deadlock stops the run. *)
-Theorem C03c_step_arrival : forall script st m from sg c st',
-  vstep script st (EArr m from sg c) = Some st' ->
-  v_hung st = false /\
-  let d := fst (arrive c (nth m (v_ms st) dummy_t) sg) in
-  let s' := snd (arrive c (nth m (v_ms st) dummy_t) sg) in
-  (d = DDeadlock /\ v_hung st' = true /\ v_ms st' = v_ms st /\ v_owed st' = v_owed st) \/
-  (d <> DDeadlock /\ v_hung st' = false /\ v_ms st' = upd (v_ms st) m s' /\
-   v_owed st' = match reply_of d with Some r => (m, from, r) :: v_owed st | None => v_owed st end).
+   most one - becomes owed to the interface the segment came from. *)
+Theorem C03c_step_arrival : forall script st m from sg st',
+  vstep script st (EArr m from sg) = Some st' ->
+  let d := fst (arrive (nth m (v_ms st) dummy_t) sg) in
+  let s' := snd (arrive (nth m (v_ms st) dummy_t) sg) in
+  v_ms st' = upd (v_ms st) m s' /\ v_inj st' = v_inj st /\
+  v_owed st' = match reply_of d with Some r => (m, from, r) :: v_owed st | None => v_owed st end.
 Proof. exact vstep_arrival. Qed.
 Print Assumptions C03c_step_arrival.
 
@@ -200,18 +216,18 @@ Print Assumptions C03c_step_app.
    answered by the closed-port reset, a RST is ignored; re-listening hands the endpoint to application 2 *)
 Theorem C03c_examples :
   (let syn := mkSeg (167772417, 4000) (167772161, 80) 2 7 0 0 in
-   let s2 := snd (arrive false ex_t1 syn) in
-   fst (arrive false ex_t1 syn) = DListenCreate 1 /\
-   fst (arrive false s2 syn) = DSession 1 /\
-   fst (arrive false s2 (mkSeg (167772417, 4000) (167772161, 80) 16 8 1 0)) = DSession 1 /\
-   fst (arrive false s2 (mkSeg (167772417, 4001) (167772161, 80) 16 8 1 0)) =
+   let s2 := snd (arrive ex_t1 syn) in
+   fst (arrive ex_t1 syn) = DListenCreate 1 /\
+   fst (arrive s2 syn) = DSession 1 /\
+   fst (arrive s2 (mkSeg (167772417, 4000) (167772161, 80) 16 8 1 0)) = DSession 1 /\
+   fst (arrive s2 (mkSeg (167772417, 4001) (167772161, 80) 16 8 1 0)) =
      DListenReply (mkSeg (167772161, 80) (167772417, 4001) 4 1 0 0) /\
-   fst (arrive false s2 (mkSeg (167772417, 4001) (167772161, 81) 2 8 0 0)) =
-     DClosed (Some (mkSeg (167772161, 81) (167772417, 4001) 20 0 8 0)) /\
-   fst (arrive false s2 (mkSeg (167772417, 4001) (167772162, 80) 4 8 0 0)) = DListenIgnore /\
+   fst (arrive s2 (mkSeg (167772417, 4001) (167772161, 81) 2 8 0 0)) =
+     DClosed (Some (mkSeg (167772161, 81) (167772417, 4001) 20 0 9 0)) /\
+   fst (arrive s2 (mkSeg (167772417, 4001) (167772162, 80) 4 8 0 0)) = DListenIgnore /\
    wf_sess s2) /\
   (let s2 := snd (tcp_listen ex_t1 2 (ANY, 80)) in
    fst (tcp_listen ex_t1 2 (ANY, 80)) = 0 /\
-   fst (arrive false s2 (mkSeg (167772417, 4000) (167772161, 80) 2 7 0 0)) = DListenCreate 2).
+   fst (arrive s2 (mkSeg (167772417, 4000) (167772161, 80) 2 7 0 0)) = DListenCreate 2).
 Proof. exact (conj creation_example listen_overwrites_example). Qed.
 Print Assumptions C03c_examples.
